@@ -1049,7 +1049,14 @@ def check_oracle(gen, st):
         x = st.oracle[1]
         L = dict(enumerate(x.get_legs(native=True)))
         try:
-            return None if np.array_equal(r.to_numpy(legs=L), x.to_numpy()) else "remove_zero_blocks changed dense values"
+            after, before = r.to_numpy(legs=L), x.to_numpy()
+            if np.array_equal(after, before):
+                return None
+            # documented: blocks whose elements are all below rtol (1e-12) x the largest element are removed; integer data has no such blocks
+            cutoff = 1e-12 * float(np.max(np.abs(before))) if before.size else 0.0
+            if not gen.representable(x) and np.all(np.abs(after - before) <= cutoff):
+                return None
+            return "remove_zero_blocks changed dense values (beyond its documented relative cutoff 1e-12)"
         except Exception as e:  # noqa: BLE001
             return f"to_numpy failed: {type(e).__name__}: {e}"
     if kind == "charge-split":
